@@ -1,7 +1,9 @@
 (* driver for the C16 (velocity regeneration) correspondence runner.
    Encodings: rational "num/den"; list "a,b,c" ("-" = empty); columns "c1;c2;c3";
    option "N" or the value; engine cp2k|gromacs|lammps|turtle|ase.
-   "file": VelM.modify_file_stream (optional velocity / box entries of the source file). *)
+   "file": VelM.modify_file_stream (optional velocity / box entries of the source file).
+   "seq": VelM.seq_results -- several calls in one exe_dir; files "file!file", file "frame|frame",
+   frame "pos@vel@box", calls "call|call", call "fileno~idx~ekin~stream". *)
 let engine_of_string = function
   | "cp2k" -> Cp2k | "gromacs" -> Gromacs | "lammps" -> Lammps | "turtle" -> Turtle | "ase" -> Ase
   | s -> failwith ("bad engine " ^ s)
@@ -21,8 +23,33 @@ let string_of_result (r, rest) =
       string_of_cols r.r_frame.f_pos; string_of_qlist r.r_frame.f_box;
       string_of_list string_of_z r.r_frame.f_ids; string_of_int (List.length rest) ]
 
+let string_of_result_norest r =
+  String.concat " "
+    [ string_of_cols r.r_frame.f_vel; string_of_q r.r_kin_new;
+      (match r.r_dek with None -> "INF" | Some d -> string_of_q d);
+      string_of_option string_of_q r.r_kin_old;
+      string_of_cols r.r_frame.f_pos; string_of_qlist r.r_frame.f_box;
+      string_of_list string_of_z r.r_frame.f_ids ]
+
 let handle toks =
   match toks with
+  | ["seq"; e; ov; fx; zm; mass; ids; sg; files; calls] ->
+    (* several modify_velocities calls in ONE exe_dir without clean-up in between (VelM.modify_seq);
+       ov = 1: extraction overwrites conf.<ext> (the rule), 0: it appends *)
+    let frame_of_string s = match String.split_on_char '@' s with
+      | [pos; vel; box] -> frame_of pos vel box ids | _ -> failwith "bad frame" in
+    let fls = List.map (fun f -> List.map frame_of_string (String.split_on_char '|' f))
+        (String.split_on_char '!' files) in
+    let call_of_string s = match String.split_on_char '~' s with
+      | [fno; idx; ek; st] -> (((z_of_string fno, nat_of_string idx), opt_of_string q_of_string ek), qlist st)
+      | _ -> failwith "bad call" in
+    let cs = List.map call_of_string (String.split_on_char '|' calls) in
+    let zmo = opt_of_string bool_of_string_ zm in
+    let mk = if e = "ase" then ase_call (bool_of_string_ fx) (qlist mass) zmo (qlist sg)
+      else std_call (engine_of_string e) (qlist mass) zmo (qlist sg) in
+    (match seq_results (bool_of_string_ ov) fls (List.map mk cs) with
+     | None -> "NONE"
+     | Some rs -> String.concat " # " (List.map string_of_result_norest rs))
   | ["std"; e; zm; ek; mass; pos; vel; box; ids; sg; stream] ->
     string_of_result
       (modify_std_stream (engine_of_string e) (qlist mass) (frame_of pos vel box ids)
